@@ -2,10 +2,23 @@
 # run_text_stage(run, n=None) is the stage of ./check T02 (and can be added to the C10 check): it
 # exports seeded journals with the implementation (op equity), evaluates the model
 # coq/model/EquityText.v (print_equity of Equity.equity of the same transaction set) and compares the
-# two texts character by character (coq/corr/T02_corr.v).  Metadata rendering is not modelled: the
-# metadata items are cut out of the implementation's own text (the comment lines between the header
-# and the first WARNING / posting line, split at the empty comments "   ; ") and passed to the model,
-# which has to put them back in place, under every header.  A difference is a broken correspondence
+# two texts character by character (coq/corr/T02_corr.v).  The WORDING of the comment lines under a
+# header is not modelled - neither the rendering of the metadata items nor the text of the comment
+# block written when the selected balances of a commodity already cancel (no property speaks about
+# either) - their PLACE is: the stage cuts the header comment lines of every transaction out of the
+# implementation's own text (the lines after the header line that start with "   ; ", up to the first
+# posting line) and splits them the way the code writes them:
+#   * first the metadata block: one item per metadata item of the transaction set (their number is
+#     known from the session: op `metadata`, absent when the set has no metadata) plus the account
+#     selector checksum item iff the set has metadata and audit mode is on; every item ends with the
+#     empty comment "   ; " (md: list of items, cut from the first transaction);
+#   * whatever follows is the warning block (warn: list of text lines; the first non-empty such block
+#     of the export, [] when there is none).
+# The model (print_equity md warn es) has to put md back under EVERY header and warn under exactly the
+# headers whose sum is zero (e_warn - the model's decision, not the observation's): comment lines
+# observed where the sum is not zero, two different blocks, or metadata that differs between the
+# transactions make the texts differ.  (An absent block where the sum is zero is warn = [] and
+# agrees: C10 does not demand the comment.)  A difference is a broken correspondence
 # (no numbered property speaks about the layout): always reported as no-failing-input-found.
 # Additionally the implementation's text is read by the journal grammar model (Journal.parse_journal)
 # and must yield exactly the model's transactions (EquityText_spec.text_reads_as, sound by
@@ -22,25 +35,71 @@ IMPORTS = ("From TkModel Require Import Base Dec Acct Txn Balance Accept Equity 
 CPREFIX = "   ; "
 
 
-def md_items(text):
-    """the metadata block of the first transaction of an export text -> list of items (lists of text
-    lines, the prefix `   ; ` removed).  The block is the run of comment lines after the header up to
-    the first WARNING or posting line; every item ends with the empty comment `   ; `."""
-    lines = text.split("\n")
-    block = []
-    for l in lines[1:]:
-        if not l.startswith(CPREFIX) or l.startswith(CPREFIX + "WARNING:"):
+def header_comments(text):
+    """export text -> per transaction (chunk of non-empty lines) the texts of its header comment lines:
+    the run of lines after the header line that start with `   ; ` (prefix removed), up to the first
+    other line (a posting line; a comment written differently, e.g. `   ;` alone, also ends the run
+    and is then shown by the comparison)."""
+    out, cur, state = [], None, 0          # state 0: between transactions, 1: in the comment run, 2: postings
+    for l in text.split("\n"):
+        if l == "":
+            state = 0
+        elif state == 0:
+            cur = []; out.append(cur); state = 1
+        elif state == 1 and l.startswith(CPREFIX):
+            cur.append(l[len(CPREFIX):])
+        else:
+            state = 2
+    return out
+
+
+def session_md_items(mdtext, audit):
+    """number of items of the metadata block under every header, from the session (not from the export
+    text): the items of the transaction set's metadata (Metadata::text = every item's lines followed
+    by an empty line) plus the account selector checksum item, which the exporter adds iff the set
+    has metadata and a hash is configured (audit mode)."""
+    if mdtext is None:
+        return 0
+    return mdtext.split("\n").count("") + (1 if audit else 0)
+
+
+def split_comments(blocks, n_items):
+    """header comment texts per transaction -> (md items, warn lines, well-shaped?).
+    md = the first n_items items (an item ends with the empty text) of the first transaction;
+    warn = the first non-empty remainder over all transactions."""
+    if not blocks:
+        return [], [], True
+    items, cur, k = [], [], 0
+    for l in blocks[0]:
+        if len(items) == n_items:
             break
-        block.append(l[len(CPREFIX):])
-    if block and block[-1] != "":
-        return None                       # not the documented shape: let the comparison show it
-    items, cur = [], []
-    for l in block:
+        k += 1
         if l == "":
             items.append(cur); cur = []
         else:
             cur.append(l)
-    return items
+    shaped = len(items) == n_items
+    if not shaped:
+        items.append(cur)                  # fewer terminated items than the session has: let the comparison show it
+    warn = []
+    for b in blocks:
+        if len(b) > k:
+            warn = b[k:]
+            break
+    return items, warn, shaped
+
+
+def g_warn(lines):
+    if not lines:
+        return "(@nil (list N))"
+    return g_list([g_str(l) for l in lines])
+
+
+def request(c):
+    """the request of the C10 check plus the session's metadata text (extent of the metadata block)"""
+    r = C10.request1(c)
+    r["ops"] = list(r["ops"]) + [{"op": "metadata"}]
+    return r
 
 
 def g_md(items):
@@ -54,14 +113,15 @@ def parse_str(v):
 
 
 def args_of(c):
-    return "%s %s %s %s" % (g_list([C10.g_txn(t) for t in c["txns"]]) if c["txns"] else "(@nil txn)",
-                            g_acct(c["eqa"]), C10.g_sel(c["sel"]), g_md(c["md"]))
+    return "%s %s %s %s %s" % (g_list([C10.g_txn(t) for t in c["txns"]]) if c["txns"] else "(@nil txn)",
+                               g_acct(c["eqa"]), C10.g_sel(c["sel"]), g_md(c["md"]), g_warn(c["warn"]))
 
 
 def new_stats():
     return {"stages": {}, "op_failed": 0, "compared": 0, "different": 0, "oracle_failed": 0, "outside_decimal_domain": 0,
             "well_formed_exports": 0, "not_well_formed": 0, "characters": 0, "lines": 0, "transactions": 0,
-            "empty_exports": 0, "with_metadata": 0, "metadata_items": {}, "with_warning": 0, "with_balancing_posting": 0,
+            "empty_exports": 0, "with_metadata": 0, "metadata_items": {}, "metadata_block_not_shaped": 0, "with_warning": 0,
+            "warning_blocks": {}, "with_balancing_posting": 0,
             "with_uuid_in_header": 0, "with_commodity": 0, "multi_commodity": 0, "negative_zero_skipped": 0}
 
 
@@ -80,7 +140,7 @@ def corpus_cases():
 
 
 def check_cases(run, cases, st, distinct=None):
-    res = harness_run([C10.request1(c) for c in cases])
+    res = harness_run([request(c) for c in cases])
     terms, keep = [], []
     for c, rr in zip(cases, res):
         stg = rr.get("stage") if rr else "none"
@@ -97,15 +157,16 @@ def check_cases(run, cases, st, distinct=None):
             continue
         if stg != "done":
             continue                      # rejected configuration (invalid equity account), load error ...: C10 / C15
-        txns, eq, bal = rr["results"]
-        if "ok" not in txns or "ok" not in eq:
+        txns, eq, bal, mdt = rr["results"]
+        if "ok" not in txns or "ok" not in eq or "ok" not in mdt:
             st["op_failed"] += 1           # overflow etc.: subject of C10 / C02
             continue
         c["txns"], c["impl_text"] = txns["ok"], eq["ok"]
         if any(p["amount"]["n"] and int(p["amount"]["m"]) == 0 for t in c["txns"] for p in t["posts"]):
             st["negative_zero_skipped"] += 1
             continue
-        c["md"] = md_items(c["impl_text"]) or []
+        c["md_items_in_session"] = session_md_items(mdt["ok"], c["audit"])
+        c["md"], c["warn"], c["md_shaped"] = split_comments(header_comments(c["impl_text"]), c["md_items_in_session"])
         terms.append("t02_case %s %s" % (args_of(c), g_str(c["impl_text"])))
         keep.append(c)
     ok, log = coq_make(["corr/T02_corr.vo"])
@@ -134,7 +195,11 @@ def check_cases(run, cases, st, distinct=None):
         for it in c["md"]:
             k = it[0] if it else "(empty)"
             st["metadata_items"][k] = st["metadata_items"].get(k, 0) + 1
-        st["with_warning"] += (CPREFIX + "WARNING:") in text
+        st["metadata_block_not_shaped"] += not c["md_shaped"]
+        st["with_warning"] += bool(c["warn"])
+        if c["warn"]:
+            k = "\n".join(c["warn"])
+            st["warning_blocks"][k] = st["warning_blocks"].get(k, 0) + 1
         st["with_balancing_posting"] += ("   " + c["eqa"] + "  ") in text
         st["with_uuid_in_header"] += any("last txn (uuid)" in h for h in hdrs)
         st["with_commodity"] += any("'Equity for " in h for h in hdrs)
@@ -145,7 +210,7 @@ def check_cases(run, cases, st, distinct=None):
             if "sample" not in st and 2 < len(lines) < 40 and c.get("src") == "gen":
                 st["sample"] = {"journal": c["text"], "equity_account": c["eqa"],
                                 "selectors": None if c["sel"] is None else C10.sel_patterns(c["sel"]),
-                                "metadata_items": c["md"], "text": text, "result": n}
+                                "metadata_items": c["md"], "warning_lines": c["warn"], "text": text, "result": n}
         c["oracle_failed"] = bool(n & 8) and not (n & 2)
         if c["oracle_failed"]:
             st["oracle_failed"] += 1
@@ -162,7 +227,9 @@ def check_cases(run, cases, st, distinct=None):
             rep = dict(C10.replay_obj(c))
             rep.update({"correspondence": "T02_corr.t02_case", "case": {k: c.get(k) for k in ("text", "eqa", "sel", "audit", "via_cli_accounts",
                                                                                                  "prices_configured", "filter", "src")},
-                        "metadata_items_cut_from_implementation_text": c["md"], "first_differing_character": i,
+                        "metadata_items_cut_from_implementation_text": c["md"],
+                        "metadata_items_in_session": c["md_items_in_session"], "metadata_block_has_that_many_items": c["md_shaped"],
+                        "warning_lines_cut_from_implementation_text": c["warn"], "first_differing_character": i,
                         "implementation_text": c["impl_text"], "model_text": mt,
                         "implementation_around": c["impl_text"][max(0, i - 60):i + 20] if i >= 0 else None,
                         "model_around": mt[max(0, i - 60):i + 20] if i >= 0 else None,
